@@ -315,6 +315,7 @@ func ruleINV1(c *Ctx) {
 			}
 			memberSink := strings.HasSuffix(cn, "SetObjectValueByField")
 			parentF := p.Field("ast", "Variable", "Variable")
+			preciseWhy := ""
 			q2 := &AQuery{Fn: fn, From: ci.(ssa.Instruction), Designated: des, Assume: AssumeNil,
 				IsTarget: func(in ssa.Instruction, st *AState) bool {
 					_, ok := in.(*ssa.Return)
@@ -327,10 +328,36 @@ func ruleINV1(c *Ctx) {
 					}
 					// the walk over every container on the written path (covers members of elements, nested
 					// selectors and dot-vs-selector access of map-like nodes as well)
-					if callee := call.Common().StaticCallee(); callee != nil && len(call.Common().Args) >= 1 && unspill(call.Common().Args[0]) == ssa.Value(recv) && c.isAliasResetWalk(callee, m) {
-						return true
+					callee := call.Common().StaticCallee()
+					if callee == nil || !fnInModule(callee) {
+						return false
 					}
-					return false
+					for i, a := range call.Common().Args {
+						if unspill(a) == ssa.Value(recv) && i < len(callee.Params) && c.aliasResetWalkIn(callee, ssa.Value(callee.Params[i]), m) != nil {
+							return true
+						}
+					}
+					// the precise form: reset what may name the same location, on every level, and the container when its size changed
+					info, why := c.preciseAliasReset(callee, m)
+					if info == nil {
+						if strings.Contains(strings.ToLower(callee.Name()), "alias") {
+							preciseWhy = fnName(callee) + ": " + why
+						}
+						return false
+					}
+					args := call.Common().Args
+					if info.varIdx >= len(args) || info.sizeIdx >= len(args) || unspill(args[info.varIdx]) != ssa.Value(recv) {
+						preciseWhy = fnName(callee) + " is not called for the written variable"
+						return false
+					}
+					if !lengthBefore(args[info.sizeIdx], recv, ci, parentF, p.Field("ast", "Variable", "ValueNode")) {
+						preciseWhy = fnName(callee) + " is not given the length of the container before the write (ValueNode.Length() of the written variable's container, taken before " + cn + ")"
+						return false
+					}
+					for _, n := range info.notes {
+						noteOnce(c, n)
+					}
+					return true
 				},
 			}
 			_ = parentF
@@ -341,16 +368,117 @@ func ruleINV1(c *Ctx) {
 				}
 			}
 			r2 := q2.Run()
-			construct2 := construct + " also invalidates the containers on the written path"
+			construct2 := construct + " also invalidates the other spellings of the written location"
 			_ = memberSink
 			switch {
 			case r2.Overflow:
 				c.Undecided(construct2, p.InstrPos(ci), "path search exceeded its state budget")
 			case r2.Found != nil:
-				c.Fail(construct2, p.InstrPos(ci), fmt.Sprintf("a successful write reaches the return at %s having reset only what is indexed under the spelling it was written through, without the walk over the containers of the written path (reset the parent of every selector step and of every member of a map-like node): a read of the same location through another spelling (F.Arr[0] after F.Arr[F.I] = …, F.Arr[F.I].X after F.Arr[0].X = …, F.Grid[F.R][F.C] after F.Grid[1][2] = …, J[\"k\"] after J.k = …) keeps its remembered value", p.InstrPos(r2.Found)), pathString(p, r2.Path)...)
+				c.Fail(construct2, p.InstrPos(ci), fmt.Sprintf("a successful write reaches the return at %s having reset only what is indexed under the spelling it was written through, without resetting what else may name the written location on every level of the written path (another selector on the same container, the name/selector pair of a map-like node) and the container whose size changed: a read of the same location through another spelling (F.Arr[0] after F.Arr[F.I] = …, F.Arr[F.I].X after F.Arr[0].X = …, F.Grid[F.R][F.C] after F.Grid[1][2] = …, J[\"k\"] after J.k = …) keeps its remembered value%s", p.InstrPos(r2.Found), map[bool]string{true: " [" + preciseWhy + "]", false: ""}[preciseWhy != ""]), pathString(p, r2.Path)...)
 			default:
-				c.OK(construct2, p.InstrPos(ci), "every success path also resets the container variable(s) of the written location")
+				c.OK(construct2, p.InstrPos(ci), "every success path also resets what may name the written location on every level of the written path, and the container when its size changed")
 			}
+		}
+	}
+	inv1Append(c, m)
+}
+
+// inv1Append: Append is the one built-in that writes the fact it is called on (model: CallFunction -> AppendValue). The
+// write happens below the method-call form of ExpressionAtom.Evaluate, which therefore has to invalidate what was read
+// from the array: on the path where the function name is "Append", a successful CallFunction is followed by
+// memory.Reset(text of the receiver) before the return.
+func inv1Append(c *Ctx, m *memoAnchors) {
+	p := c.P
+	fn := m.atomEval
+	if fn == nil {
+		return
+	}
+	// the model really dispatches Append to a writing function (otherwise the obligation is void)
+	writes := false
+	for _, typ := range []string{"GoValueNode", "JSONValueNode"} {
+		if cf := p.Method("model", typ, "CallFunction"); cf != nil {
+			for _, ci := range callsIn(cf) {
+				if strings.HasSuffix(calleeName(ci), ".AppendValue") {
+					writes = true
+				}
+			}
+		}
+	}
+	if !writes {
+		c.OK("ExpressionAtom.Evaluate / Append invalidates what was read from the array", p.Pos(fn.Pos()), "no built-in dispatches to AppendValue")
+		return
+	}
+	recv := ssa.Value(receiver(fn))
+	atomF := p.Field("ast", "ExpressionAtom", "ExpressionAtom")
+	nameF := p.Field("ast", "FunctionCall", "FunctionName")
+	var resetFn *ssa.Function = m.reset
+	for _, ci := range callsIn(fn) {
+		if !strings.HasSuffix(calleeName(ci), ".CallFunction") {
+			continue
+		}
+		// receiver of CallFunction is the ValueNode of e.ExpressionAtom (method form), not the DEFUNC node
+		isMethodForm := derivesFrom(ci.Common().Value, func(v ssa.Value) bool {
+			f, base := fieldLoad(v)
+			return f == atomF && base == recv
+		})
+		if !isMethodForm {
+			continue
+		}
+		construct := "ExpressionAtom.Evaluate / Append invalidates what was read from the array"
+		t, path := reach(fn, ci.(ssa.Instruction), func(in ssa.Instruction) bool {
+			r, ok := in.(*ssa.Return)
+			return ok && !returnsNonNilError(r)
+		}, func(in ssa.Instruction) bool {
+			call, ok := in.(ssa.CallInstruction)
+			if !ok || call.Common().StaticCallee() != resetFn || len(call.Common().Args) < 2 {
+				return false
+			}
+			f, base := fieldLoad(call.Common().Args[1])
+			if f == nil || f.Name() != "GrlText" {
+				return false
+			}
+			bf, bb := fieldLoad(base)
+			return bf == atomF && bb == recv
+		}, func(b *ssa.BasicBlock, si int) bool {
+			// follow only the edge on which the function name is "Append"
+			iff, isIf := b.Instrs[len(b.Instrs)-1].(*ssa.If)
+			if !isIf {
+				return true
+			}
+			bo, isBo := iff.Cond.(*ssa.BinOp)
+			if !isBo || (bo.Op != token.EQL && bo.Op != token.NEQ) {
+				return true
+			}
+			var other ssa.Value
+			if f, _ := fieldLoad(bo.X); f == nameF {
+				other = bo.Y
+			} else if f, _ := fieldLoad(bo.Y); f == nameF {
+				other = bo.X
+			}
+			if sv, ok := constString(other); other != nil && ok && sv == "Append" {
+				if bo.Op == token.EQL {
+					return si == 0
+				}
+				return si == 1
+			}
+			return true
+		})
+		hasTest := false
+		for _, b := range fn.Blocks {
+			if iff, ok := b.Instrs[len(b.Instrs)-1].(*ssa.If); ok {
+				if bo, ok := iff.Cond.(*ssa.BinOp); ok {
+					for _, o := range []ssa.Value{bo.X, bo.Y} {
+						if sv, ok := constString(o); ok && sv == "Append" {
+							hasTest = true
+						}
+					}
+				}
+			}
+		}
+		if t == nil && hasTest {
+			c.OK(construct, p.InstrPos(ci), "on the Append path every success return follows memory.Reset(receiver text)")
+		} else {
+			c.Fail(construct, p.InstrPos(ci), "F.L.Append(x) changes the fact, but nothing that was read from F.L is forgotten: `when F.L.Len() < 3 then F.L.Append(7);` keeps firing on the remembered length until the cycle limit", pathString(p, path)...)
 		}
 	}
 }
@@ -1979,6 +2107,52 @@ func ruleINV14(c *Ctx) {
 		c.AnchorLost("(*ast.ThenExpression).Execute")
 	}
 	c.Notes = append(c.Notes, fmt.Sprintf("INV-14 stores of Evaluated=false: %d", n))
+}
+
+// lengthBefore: v is the length of the container of the written variable, taken before the sink call.
+func lengthBefore(v ssa.Value, recv *ssa.Parameter, sink ssa.CallInstruction, parentF, vnF *types.Var) bool {
+	node := lengthOperand(v)
+	if node == nil {
+		return false
+	}
+	var call ssa.Instruction
+	uv := unspill(v)
+	if ph, ok := uv.(*ssa.Phi); ok {
+		for _, e := range ph.Edges {
+			if _, isK := constInt(e); !isK {
+				uv = unspill(e)
+			}
+		}
+	}
+	switch x := uv.(type) {
+	case *ssa.Extract:
+		call = x.Tuple.(*ssa.Call)
+	case *ssa.Call:
+		call = x
+	default:
+		return false
+	}
+	f, base := fieldLoad(node)
+	if f != vnF {
+		return false
+	}
+	if pf, pb := fieldLoad(base); pf != parentF || pb != ssa.Value(recv) {
+		return false
+	}
+	sb := sink.(ssa.Instruction).Block()
+	if call.Block() == sb {
+		return instrIndex(call) < instrIndex(sink.(ssa.Instruction))
+	}
+	return call.Block().Dominates(sb)
+}
+
+func noteOnce(c *Ctx, n string) {
+	for _, x := range c.Notes {
+		if x == n {
+			return
+		}
+	}
+	c.Notes = append(c.Notes, n)
 }
 
 // isAliasResetWalk: fn(v0 *Variable, memory) walks v = v0, v.Variable, ... while v.Variable != nil and calls
